@@ -26,6 +26,8 @@ type C07Fault struct {
 	When   string `json:"when"`   // before | during | offset
 	Off    int    `json:"off"`    // cut-*: bytes still delivered after the moment the fault is armed
 	Data   []byte `json:"data,omitempty"`
+	// ErrKind (kind error): flavour of the error value the handler returns (see ErrKinds)
+	ErrKind string `json:"err_kind,omitempty"`
 }
 
 type C07Req struct {
@@ -96,6 +98,9 @@ func c07Gen(rng *rand.Rand, conf string, idx int) any {
 			if f.Kind == "hang" || f.Kind == "error" {
 				f.When = "during"
 			}
+			if f.Kind == "error" {
+				f.ErrKind = pick(rng, ErrKinds)
+			}
 			if strings.HasPrefix(f.Kind, "cut") && f.When == "during" {
 				f.Off = rng.Intn(200)
 				if rng.Intn(3) == 0 {
@@ -112,7 +117,7 @@ func c07Gen(rng *rand.Rand, conf string, idx int) any {
 			}
 			rq.Fault = f
 		} else if conf == "healthy" && rng.Intn(4) == 0 {
-			rq.Fault = &C07Fault{Victim: rng.Intn(n), Kind: "error", When: "during"}
+			rq.Fault = &C07Fault{Victim: rng.Intn(n), Kind: "error", When: "during", ErrKind: pick(rng, ErrKinds)}
 		}
 		if conf == "faults" && rq.Fault != nil && n >= 2 && rng.Intn(4) == 0 {
 			v := rng.Intn(n)
@@ -202,9 +207,11 @@ func c07Exec(t *testing.T, w *C07W, sc SchedCfg, base *c07Transcript, rec *c07Tr
 		plugs := make([]*Plug, n)
 		// per (plugin, request) scripted behaviour
 		behave := map[string]string{}
+		errKind := map[string]string{}
 		for i, rq := range w.Reqs {
 			if f := rq.Fault; f != nil && (f.Kind == "hang" || f.Kind == "error") {
 				behave[fmt.Sprintf("%s/q%d", w.Plugins[f.Victim].Name, i)] = f.Kind
+				errKind[fmt.Sprintf("%s/q%d", w.Plugins[f.Victim].Name, i)] = f.ErrKind
 			}
 		}
 		h.Script = func(plugin, rpc, token string) *Reply {
@@ -214,6 +221,7 @@ func c07Exec(t *testing.T, w *C07W, sc SchedCfg, base *c07Transcript, rec *c07Tr
 				r.Hang = true
 			case "error":
 				r.Err = "veto-" + plugin + "-" + token
+				r.ErrKind = errKind[plugin+"/"+token]
 			}
 			return r
 		}
@@ -651,7 +659,10 @@ func c07Oracle(res *Result, w *C07W, h *H1, plugs []*Plug, outs []*c07Out, fired
 		}
 		if veto >= 0 && invoked[w.Plugins[veto].Name] > 0 {
 			// (e) veto
-			want := "veto-" + w.Plugins[veto].Name + "-" + id
+			want := ErrText(f.ErrKind, "veto-"+w.Plugins[veto].Name+"-"+id)
+			if f.ErrKind != "" {
+				res.Probe("C07.handler-error-flavour." + f.ErrKind)
+			}
 			if o.Err == nil || !strings.Contains(o.Err.Error(), want) {
 				res.Violate("C07.veto", "request %s (%s): handler of %s returned error %q but the request returned err=%v", id, rq.Event, w.Plugins[veto].Name, want, o.Err)
 			}
